@@ -119,8 +119,44 @@ def program_b(seq):
     return prog
 
 
+# C  lexical scope: the closure is called from a context that has variables of the SAME NAME as the ones it captured (a caller's
+#    parameter / local / block local, or a module-level variable created after the closure).  The closure must keep seeing - and
+#    `modify` must keep writing - the variables of its DEFINING scope, not the caller's.
+VIA_KINDS = ["via_param", "via_local", "via_block", "module_var", "via_nested_maker"]
+
+
+def program_c(kind, fi):
+    prog = [("assign", "in0", ("in", 0)), ("assign", "in1", ("in", 1)), ("assign", "in2", ("in", 2)), OWNER_B,
+            ("assign", "a", ("call", "mk", [V("in0")])), ("assign", "f", ("index", V("a"), fi)), ("assign", "rd", ("index", V("a"), 0)),
+            ("print", ("call", "f", [I(1)]))]
+    if kind == "via_param":
+        prog += [("def", "via", [("h", "fn(int) -> int"), ("v", "int"), ("late", "int")], "int", [("return", B("+", ("call", "h", [I(2)]), B("-", V("v"), V("late"))))]),
+                 ("print", ("call", "via", [V("f"), V("in1"), V("in2")]))]
+    elif kind == "via_local":
+        prog += [("def", "via", [("h", "fn(int) -> int"), ("p", "int")], "int", [("assign", "v", B("+", V("p"), I(100))), ("assign", "late", V("p")), ("assign", "r", ("call", "h", [I(2)])), ("return", B("+", V("r"), B("-", V("v"), V("late"))))]),
+                 ("print", ("call", "via", [V("f"), V("in1")]))]
+    elif kind == "via_block":
+        prog += [("def", "via", [("h", "fn(int) -> int"), ("p", "int")], "int", [("assign", "r", I(0)), ("if", [(B("!=", V("p"), I(77)), [("assign", "v", V("p")), ("assign", "late", I(3)), ("assign", "r", ("call", "h", [I(2)]))])], None), ("return", V("r"))]),
+                 ("print", ("call", "via", [V("f"), V("in1")]))]
+    elif kind == "module_var":
+        prog += [("assign", "v", V("in1")), ("assign", "late", V("in2")), ("print", ("call", "f", [I(2)])), ("print", V("v"))]
+    elif kind == "via_nested_maker":
+        # a closure created INSIDE a closure, while a caller's `v` is on the call stack, must capture the variable of its defining scope
+        prog = [("assign", "in0", ("in", 0)), ("assign", "in1", ("in", 1)), ("assign", "in2", ("in", 2)),
+                ("def", "mk", [("v", "int")], "fn() -> fn(int) -> int", [
+                    ("def", "outer", [], "fn(int) -> int", [("def", "inner", [("n", "int")], "int", [("return", B("+", V("v"), V("n")))]), ("return", V("inner"))]),
+                    ("return", V("outer"))]),
+                ("assign", "o", ("call", "mk", [V("in0")])),
+                ("def", "via", [("v", "int")], "fn(int) -> int", [("return", ("call", "o", []))]),
+                ("assign", "g", ("call", "via", [V("in1")])), ("print", ("call", "g", [I(2)])),
+                ("assign", "rd", ("call", "o", []))]
+    prog += [("print", ("call", "rd", [I(0)])), ("print", ("str", "end"))]
+    return prog
+
+
 def select(tier, seed):
     items = [("A", pos, ok) for pos in POSITIONS for ok in OWNER_KINDS]
+    items += [("C", k, fi) for k in VIA_KINDS for fi in range(4) if not (k == "via_nested_maker" and fi)]
     rnd = random.Random(seed)
     nseq = 120 if tier == "quick" else 1200
     seen = set()
@@ -133,11 +169,15 @@ def select(tier, seed):
 
 
 def program(kind, x, y):
+    if kind == "C":
+        return program_c(x, y)
     return program_a(x, y) if kind == "A" else program_b(x)
 
 
 def describe(item):
     kind, x, y = item
+    if kind == "C":
+        return "closure `%s` called from a context with same-named variables (`%s`)" % (["reader", "writer", "shadow", "later"][y], x)
     if kind == "A":
         return "capture position `%s`, owner variable is a %s" % (x, y)
     return "sharing sequence " + " ".join("%s.%s(%s)" % ("ab"[i], ["reader", "writer", "shadow", "later"][f], ("in%d" % a) if isinstance(a, int) else a[1]) for i, f, a in x)
